@@ -402,6 +402,15 @@ def c11(ctx):
                               'the %s machine enters FLUSH_IO_WRITE without knowing that the other machine is not flushing' % which)
             # the two producers never touch each other's buffer or state
             for e in t.events:
+                if e['k'] == 'ob' and e['ob'] == 'bound' and isinstance(e.get('region'), tuple) and e['region'][0] in ('BUF', 'BUFHI', 'UBUF'):
+                    key_ = (e.get('line'), e.get('fn'))
+                    if e['ok'] is not True and key_ not in ctx.extra.setdefault('_extent_sites', set()):
+                        ctx.extra['_extent_sites'].add(key_)
+                        ctx.check('disjoint-extents', False, t.site(e),
+                                  'the %s machine may access %s beyond its own extent (offset %s, %s bytes, extent %s): units of the two producers can overwrite each other'
+                                  % (which, e['region'], e.get('off'), e.get('width'), e.get('cap')))
+                    elif e['ok'] is True:
+                        ctx.instance('disjoint-extents')
                 if e['k'] == 'wr' and e['region'][0] in ('BUF', 'BUFHI', 'UBUF'):
                     ctx.check('stable-source', e['region'] in mine, t.site(e),
                               'the %s machine writes into %s' % (which, e['region']))
